@@ -125,6 +125,7 @@ type Engine struct {
 	ghosts        map[string]*ghostRef
 	ioSites       []ioSite
 	constArrs     map[string]string
+	sumByExpr map[*EQuant][]sumInst
 	sumFns        map[string]string
 	sortPerms     []sortPerm
 	callArgTypes  map[string]types.Type
